@@ -3,6 +3,7 @@ from hypothesis import strategies as st
 
 from .. import drawer as D
 from ..core import Property, Violation
+from ..run import guard
 
 PROP = Property(
     'C15', 'exploration',
@@ -60,11 +61,11 @@ def run_case(case, note):
     data = case['data']
     if case['shipped']:
         strings = shipped_strings(case['shipped'])
-        lines = trace().parse_trace_data(memoryview(data), D.shipped(case['shipped']))
+        lines = guard('C15.decode', trace().parse_trace_data, memoryview(data), D.shipped(case['shipped']))
     else:
         strings = case['strings'] or []
         with D.TempFile(D.render_string_file(strings), '') as path:
-            lines = trace().parse_trace_data(memoryview(data), path)
+            lines = guard('C15.decode', trace().parse_trace_data, memoryview(data), path)
     mode, n = D.compare_trace_output(lines, data, strings, oracle='C15')
     note.label(mode, 'entries=%s' % (n if n < 3 else '3+'))
     return mode, n, strings
